@@ -287,6 +287,52 @@ let pr_pub_area (p : pub_area) =
     | ECCParams (sym, sch, crv, kdf) -> "ECC " ^ pr_cstr sym ^ " " ^ pr_cstr sch ^ " " ^ pr_cstr crv ^ " " ^ pr_cstr kdf) in
   pr_cstr p.pa_type ^ " " ^ pr_cstr p.pa_name_alg ^ " " ^ attrs ^ " " ^ pr_bytes p.pa_auth_policy ^ " " ^ ps ^ " " ^ pr_bytes p.pa_unique
 
+let rd_descriptor () : descriptor =
+  let id = rd_bytes () in let ty = rd_str () in let tr = rd_opt (fun () -> rd_list rd_str) in
+  { d_id = id; d_type = ty; d_transports = tr }
+let pr_descriptor (d : descriptor) =
+  pr_bytes d.d_id ^ " " ^ pr_str d.d_type ^ " " ^ pr_opt (pr_list pr_str) d.d_transports
+let rd_auth_sel () : auth_sel =
+  let a = rd_opt rd_str in let rk = rd_opt rd_str in let rr = rd_opt rd_bool in let uv = rd_opt rd_str in
+  { as_attachment = a; as_resident_key = rk; as_require_rk = rr; as_uv = uv }
+let pr_auth_sel (s : auth_sel) =
+  pr_opt pr_str s.as_attachment ^ " " ^ pr_opt pr_str s.as_resident_key ^ " " ^ pr_opt pr_bool s.as_require_rk ^ " " ^ pr_opt pr_str s.as_uv
+let rd_reg_args () : reg_args =
+  let rp_id = rd_str () in let rp_name = rd_str () in let un = rd_str () in
+  let uid = rd_opt rd_bytes in let dn = rd_opt rd_str in let ch = rd_opt rd_bytes in
+  let to_ = rd_int () in let att = rd_str () in let sel = rd_opt rd_auth_sel in
+  let ex = rd_opt (fun () -> rd_list rd_descriptor) in let algs = rd_opt (fun () -> rd_list rd_int) in
+  let hints = rd_opt (fun () -> rd_list rd_str) in
+  { ra_rp_id = rp_id; ra_rp_name = rp_name; ra_user_name = un; ra_user_id = uid; ra_display_name = dn; ra_challenge = ch;
+    ra_timeout = to_; ra_attestation = att; ra_auth_sel = sel; ra_exclude = ex; ra_algs = algs; ra_hints = hints }
+let rd_auth_args () : auth_args =
+  let rp_id = rd_str () in let ch = rd_opt rd_bytes in let to_ = rd_int () in
+  let al = rd_opt (fun () -> rd_list rd_descriptor) in let uv = rd_str () in
+  { aa_rp_id = rp_id; aa_challenge = ch; aa_timeout = to_; aa_allow = al; aa_uv = uv }
+let pr_creation_options (o : creation_options) =
+  pr_opt pr_str o.co_rp_id ^ " " ^ pr_str o.co_rp_name ^ " " ^ pr_bytes o.co_user_id ^ " " ^ pr_str o.co_user_name ^ " "
+  ^ pr_str o.co_display_name ^ " " ^ pr_bytes o.co_challenge ^ " " ^ pr_list (fun (t, a) -> pr_str t ^ " " ^ pr_int a) o.co_params ^ " "
+  ^ pr_opt pr_int o.co_timeout ^ " " ^ pr_opt (pr_list pr_descriptor) o.co_exclude ^ " " ^ pr_opt pr_auth_sel o.co_auth_sel ^ " "
+  ^ pr_opt pr_str o.co_attestation ^ " " ^ pr_opt (pr_list pr_str) o.co_hints
+let rd_creation_options () : creation_options =
+  let rp_id = rd_opt rd_str in let rp_name = rd_str () in let uid = rd_bytes () in let un = rd_str () in
+  let dn = rd_str () in let ch = rd_bytes () in
+  let params = rd_list (fun () -> let t = rd_str () in let a = rd_int () in (t, a)) in
+  let to_ = rd_opt rd_int in let ex = rd_opt (fun () -> rd_list rd_descriptor) in let sel = rd_opt rd_auth_sel in
+  let att = rd_opt rd_str in let hints = rd_opt (fun () -> rd_list rd_str) in
+  { co_rp_id = rp_id; co_rp_name = rp_name; co_user_id = uid; co_user_name = un; co_display_name = dn; co_challenge = ch;
+    co_params = params; co_timeout = to_; co_exclude = ex; co_auth_sel = sel; co_attestation = att; co_hints = hints }
+let pr_request_options (o : request_options) =
+  pr_bytes o.ro_challenge ^ " " ^ pr_opt pr_int o.ro_timeout ^ " " ^ pr_opt pr_str o.ro_rp_id ^ " "
+  ^ pr_opt (pr_list pr_descriptor) o.ro_allow ^ " " ^ pr_opt pr_str o.ro_uv
+let rd_request_options () : request_options =
+  let ch = rd_bytes () in let to_ = rd_opt rd_int in let rp = rd_opt rd_str in
+  let al = rd_opt (fun () -> rd_list rd_descriptor) in let uv = rd_opt rd_str in
+  { ro_challenge = ch; ro_timeout = to_; ro_rp_id = rp; ro_allow = al; ro_uv = uv }
+let rec nat_of_int n = if n <= 0 then O else S (nat_of_int (n - 1))
+let rec int_of_nat = function O -> 0 | S n -> 1 + int_of_nat n
+let draw_of (l : z list list) : nat -> z list = fun n -> (match List.nth_opt l (int_of_nat n) with Some b -> b | None -> [])
+
 (* ---------- dispatch ---------- *)
 let dispatch (cmd) =
   match cmd with
@@ -313,6 +359,14 @@ let dispatch (cmd) =
   | "certinfo" -> pr_res pr_cert_info (parse_cert_info (rd_bytes ()))
   | "pubarea" -> pr_res pr_pub_area (parse_pub_area (rd_bytes ()))
   | "tsok" -> let now = rd_int () in let ts = rd_int () in pr_bool (timestamp_ok now ts)
+  | "genreg" -> let a = rd_reg_args () in let n = rd_nat () in let draws = rd_list rd_bytes in
+      pr_res (fun (o, n2) -> pr_creation_options o ^ " " ^ string_of_int (int_of_nat n2)) (gen_reg (draw_of draws) a (nat_of_int n))
+  | "genauth" -> let a = rd_auth_args () in let n = rd_nat () in let draws = rd_list rd_bytes in
+      pr_res (fun (o, n2) -> pr_request_options o ^ " " ^ string_of_int (int_of_nat n2)) (gen_auth (draw_of draws) a (nat_of_int n))
+  | "regoptjson" -> pr_json (creation_options_json (rd_creation_options ()))
+  | "authoptjson" -> pr_json (request_options_json (rd_request_options ()))
+  | "parseregopt" -> pr_res pr_creation_options (parse_reg_options_json the_oracles (rd_text_or_json ()))
+  | "parseauthopt" -> pr_res pr_request_options (parse_auth_options_json the_oracles (rd_text_or_json ()))
   | "counterok" -> let s = rd_int () in let c = rd_int () in pr_bool (counter_ok s c)
   | _ -> "DRIVER-ERROR unknown command " ^ cmd
 
